@@ -115,6 +115,21 @@ func (sc *ArshalMarshal) plan(t *core.Tape, env *Env) *MarshalPlan {
 	ps := t.S("plan")
 	p.Opts = genArshalOpts(ps)
 	adv := sc.Mode == "c02"
+	if rs := t.S("raw-opts"); rs.Chance(1, 4) {
+		// how raw values (from MarshalJSON, functions, jsontext.Value fields) are
+		// re-encoded; combined with the escaping options these are separate code
+		// paths from the ones strings of Go values take
+		p.Opts.Enc.Preserve = rs.Bool()
+		p.Opts.Enc.CanonInts = rs.Chance(1, 3)
+		p.Opts.Enc.CanonFlts = rs.Chance(1, 3)
+		p.Opts.Enc.Reorder = rs.Chance(1, 3)
+		if rs.Bool() {
+			p.Opts.Enc.JS = true
+		}
+		if rs.Chance(1, 3) {
+			p.Opts.Enc.HTML = true
+		}
+	}
 	g := &gen.GoGen{S: t.S("value"), Cfg: gen.GoCfg{MaxDepth: 1 + ps.Draw(4), Peers: true, Adversarial: adv, BigStructs: true, OmitSweep: !adv && ps.Chance(1, 2)}}
 	typ := g.Type(0)
 	p.val = g.Value(typ, 0)
